@@ -201,7 +201,7 @@ const TRANSFORM_TOKENS: &[&str] = &[
 ];
 
 pub fn shape_doc(kind: u8, n: usize, sel: u16) -> (String, String) {
-    let k = kind % 33;
+    let k = kind % 34;
     let rect = |v: &str| format!("<svg><rect xy=\"0\" wh=\"{}\"/></svg>", crate::sxml::escape_attr(v));
     let (name, doc): (&str, String) = match k {
         0 => ("expr.parens", rect(&format!("{{{{{}1{}}}}}", "(".repeat(n), ")".repeat(n)))),
@@ -427,6 +427,13 @@ pub fn shape_doc(kind: u8, n: usize, sel: u16) -> (String, String) {
             };
             ("reuse.amplify", format!("<svg>{body}</svg>"))
         }
+        33 => {
+            // nested groups around an element that can never be laid out, each level with one sibling that can:
+            // a failed child is attempted again by every enclosing level
+            let n = 2 + n % 29;
+            let (open, close) = if sel % 2 == 0 { ("<g><rect wh=\"1\"/>", "</g>") } else { ("<g>", "<rect wh=\"1\"/></g>") };
+            ("retry.nested-groups", format!("<svg>{}<rect xy=\"#nope|h\" wh=\"1\"/>{}</svg>", open.repeat(n), close.repeat(n)))
+        }
         _ => {
             let n = n.min(2000);
             let mut s = String::from("<svg><defaults>");
@@ -442,7 +449,7 @@ pub fn shape_doc(kind: u8, n: usize, sel: u16) -> (String, String) {
 
 fn fam_shapes(t: Tier) -> BoxedStrategy<Case> {
     let max_exp = if t == Tier::Quick { 16 } else { 20 };
-    (0u8..33, log_uniform(max_exp), any::<u16>(), gen::cfg_small_limits(), prop::bool::weighted(0.7))
+    (0u8..34, log_uniform(max_exp), any::<u16>(), gen::cfg_small_limits(), prop::bool::weighted(0.7))
         .prop_map(|(kind, n, sel, mut cfg, default_limits)| {
             if default_limits {
                 cfg.loop_limit = 1000;
@@ -676,6 +683,12 @@ impl Property for C01 {
     }
     fn judge(&self, case: &Case, _strict: bool) -> Verdict {
         judge_lib(case)
+    }
+    fn hang_sig(&self, case: &serde_json::Value) -> String {
+        match case.get("shape").and_then(|s| s.as_str()) {
+            Some(s) if !s.is_empty() => format!("hang:{s}"),
+            _ => "hang".into(),
+        }
     }
     fn parent_phase(&self, tier: Tier, seed: u64) -> ParentPhase {
         crate::props::frontends::c01_process_phase(tier, seed)
